@@ -115,48 +115,58 @@ def nontrivial(case, model):
     return cg.n_real_ops(case) >= 3
 
 
+PRIORITY = ("lookup-of-emptied-type", "any-several-types", "get-ttl1", "raw-get-ttl0",
+            "axfr-mailb-maila-unknown-qtype", "hit")
+
+
+def features(case, model):
+    """lookup situations reached by the history (cheap scan of the model's result line)"""
+    ops = case.split(" ", 3)[3].split("|")
+    ents = model.split("|")
+    if len(ents) != len(ops):
+        return None
+    fs = set()
+    for o, e in zip(ops, ents):
+        c = o[0]
+        if c != "G" and c != "R":
+            continue
+        _, qn, qt = o.split("~")
+        res, _, dump = e.partition("!")
+        if res == "L_":
+            fs.add("miss")
+            if qt in ("252", "253", "254", "99"):
+                fs.add("axfr-mailb-maila-unknown-qtype")
+            elif qt != "255":
+                i = dump.find("#N" + qn + "/")
+                if i >= 0:
+                    j = dump.find("#", i + 1)
+                    if qt + "=" in dump[i:j].rsplit("/", 1)[1].split("+"):
+                        fs.add("lookup-of-emptied-type")
+            continue
+        fs.add("hit")
+        types = set()
+        for x in res[1:].split(";"):
+            f = x.split(":")
+            types.add(f[1])
+            if f[3] == "1" and c == "G":
+                fs.add("get-ttl1")
+            if f[3] == "0" and c == "R":
+                fs.add("raw-get-ttl0")
+        if len(types) >= 2:
+            fs.add("any-several-types")
+    return fs
+
+
 def kind(case, model):
-    """bucket by the rarest lookup situation the history reaches"""
+    """bucket: desired-size class and the rarest lookup situation the history reaches"""
     try:
-        ops = case.split(" ", 3)[3].split("|")
-        ents = model.split("|")
-        if len(ents) != len(ops):
+        fs = features(case, model)
+        if fs is None:
             return "whole-line:" + model.split(" ")[0][:12]
-        f_empt = f_ttl1 = f_raw0 = f_multi = f_special = f_hit = f_look = False
-        for o, e in zip(ops, ents):
-            c = o[0]
-            if c != "G" and c != "R":
-                continue
-            f_look = True
-            _, qn, qt = o.split("~")
-            res, _, dump = e.partition("!")
-            if res == "L_":
-                if qt in ("252", "253", "254", "99"):
-                    f_special = True
-                elif qt != "255":
-                    i = dump.find("#N" + qn + "/")
-                    if i >= 0:
-                        j = dump.find("#", i + 1)
-                        recs = dump[i:j].rsplit("/", 1)[1].split("+")
-                        if qt + "=" in recs:
-                            f_empt = True
-                continue
-            f_hit = True
-            types = set()
-            for x in res[1:].split(";"):
-                f = x.split(":")
-                types.add(f[1])
-                if f[3] == "1" and c == "G":
-                    f_ttl1 = True
-                if f[3] == "0" and c == "R":
-                    f_raw0 = True
-            if len(types) >= 2:
-                f_multi = True
-        for flag, name in ((f_empt, "lookup-of-emptied-type"), (f_raw0, "raw-get-ttl0"), (f_ttl1, "get-ttl1"),
-                           (f_special, "axfr-mailb-maila-unknown-qtype"), (f_multi, "any-several-types"),
-                           (f_hit, "hit"), (f_look, "miss-only")):
-            if flag:
-                return name
-        return "no-lookup"
+        sz = "small" if cg.size_class(case) in ("d0", "d1") else "large"
+        for name in PRIORITY:
+            if name in fs:
+                return sz + ":" + name
+        return sz + (":miss-only" if "miss" in fs else ":no-lookup")
     except Exception:
         return "unparsed"
